@@ -8,6 +8,8 @@ import (
 	"strings"
 	"testing"
 
+	connect "github.com/bufbuild/connect-go"
+
 	"verifharness/ev"
 	"verifharness/memhttp"
 )
@@ -213,10 +215,207 @@ func c04DoFails(t *testing.T, c *ev.Collector) {
 	}
 }
 
+type failingWriter struct {
+	http.ResponseWriter
+	after  int // successful writes before the failure
+	writes int
+	onFail func()
+	failed bool
+}
+
+func (f *failingWriter) Write(p []byte) (int, error) {
+	if f.writes >= f.after {
+		if !f.failed {
+			f.failed = true
+			f.onFail()
+		}
+		return 0, memhttp.ErrTransport
+	}
+	f.writes++
+	return f.ResponseWriter.Write(p)
+}
+
+func (f *failingWriter) Flush() {
+	if fl, ok := f.ResponseWriter.(http.Flusher); ok && !f.failed {
+		fl.Flush()
+	}
+}
+
+// c04WriteFaults: the k-th write of a response fails (and the connection with
+// it); the k-th byte of a request is the last the transport accepts.
+func c04WriteFaults(t *testing.T, c *ev.Collector) {
+	idx := 0
+	for _, p := range AllProtos {
+		for _, kind := range []Kind{KUnary, KServer, KBidi} {
+			for k := 0; k <= 9; k++ {
+				idx++
+				if !ev.Mine(idx) {
+					continue
+				}
+				key := fmt.Sprintf("resp-write-fails/%s/%s/after%d", p, kind, k)
+				c.Case(key, true)
+				Bubble(t, func() {
+					var sendErrs []error
+					sent := [][]byte{}
+					var tr *memhttp.Transport
+					h := NewHandler(kind, func(ctx context.Context, s HStream) error {
+						for {
+							if _, err := s.Receive(); err != nil {
+								break
+							}
+						}
+						n := 1
+						if kind.ServerStreams() {
+							n = 3
+						}
+						for i := 0; i < n; i++ {
+							p := Payload(20+i, byte(0x41+i))
+							err := s.Send(&BV{Value: p})
+							sendErrs = append(sendErrs, err)
+							if err != nil {
+								return err
+							}
+							sent = append(sent, p)
+						}
+						return nil
+					}, connect.WithCompressMinBytes(1<<20))
+					fw := &failingWriter{after: k}
+					tr = &memhttp.Transport{Handler: h, Proto: 2, SyncCloseReq: true}
+					fw.onFail = func() { tr.BreakLast(memhttp.ErrTransport) }
+					tr.WrapRespWriter = func(w http.ResponseWriter) http.ResponseWriter { fw.ResponseWriter = w; return fw }
+					cl := NewClient(tr, Cfg{Proto: p, Comp: CompNone, Kind: kind, HTTP: 2})
+					var res CallResult
+					g := Guarded(func() { res = RunCall(context.Background(), cl, kind, [][]byte{{1}}, nil) }, tr)
+					c.AddTransitions(4)
+					c.AddStates(3)
+					c.AddTraces(1)
+					tags := []string{"proto=" + p.String(), "kind=" + kind.String(), "write-fault"}
+					if g.Hung || g.Panicked {
+						c.Violation("TestC04", "terminates", "hang-or-panic", tags, key, "%s: hung=%v panic=%v\n%s", key, g.Hung, g.Panic, g.Stack)
+						BailIfStuck(c, g)
+						return
+					}
+					if !fw.failed {
+						// the response needed fewer writes: it is complete
+						if res.Err != nil {
+							c.Violation("TestC04", "uncut-outcome", "differs", tags, key, "%s: no write failed but the call failed: %v", key, res.Err)
+						}
+						c.Outcome("success")
+						return
+					}
+					if res.Err == nil {
+						c.Violation("TestC04", "success-needs-terminator", "clean-success", tags, key, "%s: write %d of the response failed but the client reports success with %s", key, k+1, shortMsgs(res.Msgs))
+						c.Outcome("violation")
+						return
+					}
+					if CodeOfErr(res.Err) == 0 {
+						c.Violation("TestC04", "coded-error", "uncoded", tags, key, "%s: %v", key, res.Err)
+					}
+					if !isPrefix(res.Msgs, append(sent, Payload(20+len(sent), byte(0x41+len(sent))))) {
+						c.Violation("TestC04", "delivered-prefix", "not-a-prefix", tags, key, "%s: client got %s, handler sent %s", key, shortMsgs(res.Msgs), shortMsgs(sent))
+					}
+					// the Send whose write failed must report it
+					failedSendSeen := false
+					for _, e := range sendErrs {
+						if e != nil {
+							failedSendSeen = true
+						}
+					}
+					expectSendFailure := kind.ServerStreams() // single-response kinds send from the framework, after user code returned
+					if expectSendFailure && !failedSendSeen && len(sendErrs) > 0 && k < 2*len(sendErrs) {
+						c.Violation("TestC04", "write-failure-reported", "swallowed", tags, key, "%s: write %d failed inside a Send but every Send returned nil", key, k+1)
+					}
+					c.Outcome("failed:" + CodeOfErr(res.Err).String())
+				})
+			}
+		}
+	}
+	// request side: the transport stops accepting the request after k bytes and the connection dies
+	for _, p := range AllProtos {
+		for _, kind := range []Kind{KUnary, KClient, KBidi} {
+			for _, mode := range []memhttp.ReqMode{memhttp.ReqEager, memhttp.ReqLazy} {
+				for k := 0; k <= 12; k += 3 {
+					idx++
+					if !ev.Mine(idx) {
+						continue
+					}
+					key := fmt.Sprintf("req-write-fails/%s/%s/%s/after%d", p, kind, mode, k)
+					c.Case(key, true)
+					Bubble(t, func() {
+						var tr *memhttp.Transport
+						handlerEnd := ""
+						h := NewHandler(kind, func(ctx context.Context, s HStream) error {
+							for {
+								if _, err := s.Receive(); err != nil {
+									handlerEnd = classifyErr(err)
+									if handlerEnd != "eof" {
+										return err
+									}
+									break
+								}
+							}
+							return s.Send(&BV{Value: []byte{1}})
+						})
+						tr = &memhttp.Transport{Handler: h, Proto: 2, ReqMode: mode, SyncCloseReq: true}
+						read := 0
+						tr.WrapReqBody = func(rc io.ReadCloser) io.ReadCloser {
+							return readerFunc{func(b []byte) (int, error) {
+								if read >= k {
+									tr.BreakLast(memhttp.ErrTransport)
+									return 0, memhttp.ErrTransport
+								}
+								if len(b) > k-read {
+									b = b[:k-read]
+								}
+								n, err := rc.Read(b)
+								read += n
+								return n, err
+							}, rc}
+						}
+						cl := NewClient(tr, Cfg{Proto: p, Comp: CompNone, Kind: kind, HTTP: 2})
+						reqs := [][]byte{Payload(30, 0x61), Payload(31, 0x62)}
+						if !kind.ClientStreams() {
+							reqs = reqs[:1]
+						}
+						var res CallResult
+						g := Guarded(func() { res = RunCall(context.Background(), cl, kind, reqs, nil) }, tr)
+						c.AddTransitions(4)
+						c.AddStates(3)
+						c.AddTraces(1)
+						tags := []string{"proto=" + p.String(), "kind=" + kind.String(), "write-fault", "dir=request"}
+						switch {
+						case g.Hung || g.Panicked:
+							c.Violation("TestC04", "terminates", "hang-or-panic", tags, key, "%s: hung=%v panic=%v\n%s", key, g.Hung, g.Panic, trimStacks(g.Stack))
+							BailIfStuck(c, g)
+						case res.Err == nil:
+							c.Violation("TestC04", "success-needs-terminator", "clean-success", tags, key, "%s: the connection died after %d request bytes but the client reports success", key, k)
+							c.Outcome("violation")
+						case CodeOfErr(res.Err) == 0:
+							c.Violation("TestC04", "coded-error", "uncoded", tags, key, "%s: %v", key, res.Err)
+						case handlerEnd == "eof":
+							c.Violation("TestC04", "handler-no-clean-end", "clean-eof", tags, key, "%s: the request body failed after %d bytes but the handler saw a clean end", key, k)
+						default:
+							c.Outcome("failed:" + CodeOfErr(res.Err).String())
+						}
+					})
+				}
+			}
+		}
+	}
+}
+
+type readerFunc struct {
+	f func([]byte) (int, error)
+	c io.Closer
+}
+
+func (r readerFunc) Read(b []byte) (int, error) { return r.f(b) }
+func (r readerFunc) Close() error               { return r.c.Close() }
+
 func TestC04(t *testing.T) {
 	c := ev.New("C04")
 	defer func() { _ = c.Finish() }()
-	c.SetRule("crash-point / fault enumeration: every body of the corpus of valid request and response bodies (see C03) x every cut offset 0..len(body) x terminal answer {clean EOF, io.ErrUnexpectedEOF, transport error} x {answer on a separate read, answer together with the last data} x {HTTP trailers delivered, dropped} (gRPC); plus HTTPClient.Do failing before any response with each answer; oracle: a response cut before its terminator or a failed transport makes the call fail with a coded non-OK error, delivered messages are a prefix of those sent, nothing hangs (bubble) or panics, the complete body gives the uncut outcome; a request body that failed or stopped inside an envelope never gives the handler a clean end of stream or an OK answer; distinct = (body, offset, answer, placement, trailers); non-trivial = cut before the end or non-EOF answer")
+	c.SetRule("crash-point / fault enumeration: every body of the corpus of valid request and response bodies (see C03) x every cut offset 0..len(body) x terminal answer {clean EOF, io.ErrUnexpectedEOF, transport error} x {answer on a separate read, answer together with the last data} x {HTTP trailers delivered, dropped} (gRPC); plus HTTPClient.Do failing before any response with each answer, the k-th ResponseWriter.Write failing for k = 0..9, and the connection dying after k request bytes; oracle: a response cut before its terminator or a failed transport makes the call fail with a coded non-OK error, delivered messages are a prefix of those sent, nothing hangs (bubble) or panics, the complete body gives the uncut outcome; a request body that failed or stopped inside an envelope never gives the handler a clean end of stream or an OK answer; distinct = (body, offset, answer, placement, trailers); non-trivial = cut before the end or non-EOF answer")
 	c.Assume("faults are injected at the io.Reader the library reads from; unary Connect bodies cut with a clean EOF are different complete bodies and are not judged")
 	thorough := ev.Thorough()
 	if ev.ReplayFile() != "" {
@@ -234,6 +433,7 @@ func TestC04(t *testing.T) {
 	Bubble(t, func() { corpus = captureCorpus(thorough) })
 	c.Bound("corpus_bodies", len(corpus))
 	c04DoFails(t, c)
+	c04WriteFaults(t, c)
 	idx := 0
 	for _, w := range corpus {
 		var base wireObs
